@@ -308,7 +308,8 @@ EvalArmLoops(p, a, b) ==
 \* (where = "in": len evaluated in every iteration of a loop that grows the map; "before": once, before the loop.
 \*  mty: a map literal type, a DEFINED map type, or a channel that the loop fills — len of those is not invariant)
 EvalMapLen(p, a, b) ==
-  LET n == Clamp(a) IN Val((IF p.where = "in" THEN (n * (n + 1)) \div 2 ELSE 0) + b)
+  \* use "sum": t += len;  use "last": t = len  (the value of the final iteration)
+  LET n == Clamp(a) IN Val((IF p.where = "in" THEN (IF p.use = "sum" THEN (n * (n + 1)) \div 2 ELSE n) ELSE 0) + b)
 
 Eval(p, a, b) ==
   CASE p.tpl = "branch" -> EvalBranch(p, a, b)
@@ -358,7 +359,7 @@ UBig == [tpl : {"ubig"}, k : {"max", "max7", "hi16", "mid"}, small : {3, 5}, pre
 ConstType == [tpl : {"consttype"}, ty : {"int32", "int64", "uint8"}, pres : {Plain}]
 Effects == [tpl : {"effects"}, kind : {"stores", "calls", "mapupd"}, order : {"12", "21"}, v1 : {1, 3}, v2 : {2, 5}, pres : {Plain}]
 ArmLoops == [tpl : {"armloops"}, cmp : {">=", ">", "<", "<="}, pres : {Plain}]
-MapLen == [tpl : {"maplen"}, where : {"in", "before"}, mty : {"plain", "named", "chan"}, pres : {Plain}]
+MapLen == [tpl : {"maplen"}, where : {"in", "before"}, mty : {"plain", "named", "chan"}, use : {"sum", "last"}, pres : {Plain}]
 Leaves == {"a+b", "b", "7"}
 DecTree == [tpl : {"dectree"}, c2 : {"b>0", "a>b"}, c3 : {"b>0", "a>b"}, l1 : Leaves, l2 : Leaves, l3 : Leaves, l4 : Leaves, form : {"ret", "glob"}, pres : {Plain}]
 Labeled == [tpl : {"labeled"}, jump : {"break", "continue"}, lim : {1, 3}, g : {"i*10+j", "j*10+i", "i+j"}, pres : {Plain}]
